@@ -359,12 +359,15 @@ func (p *Parser) initializePackages(filename string) (*packages.Package, error) 
 }
 
 // damagedOutputOverlay returns an overlay that replaces, by an empty file of the package of filename,
-// every output file (X_band.go) in the directory of filename that does not parse; nil when there is none.
+// every output file (X_band.go) in the directory of filename that does not parse, and the previous
+// output of filename itself (it is about to be rewritten: what it declares - an injector since renamed -
+// must not take part in type-checking the sources); nil when there is none.
 func damagedOutputOverlay(filename string) map[string][]byte {
 	dir, err := filepath.Abs(filepath.Dir(filename))
 	if err != nil {
 		return nil
 	}
+	ownOutput := filepath.Join(dir, filepath.Base(outputFileName(filename)))
 	outputs, err := filepath.Glob(filepath.Join(dir, "*"+filepath.Ext(outputFileName(filename))))
 	if err != nil {
 		return nil
@@ -380,8 +383,10 @@ func damagedOutputOverlay(filename string) map[string][]byte {
 		if err != nil {
 			continue
 		}
-		if _, err := parser.ParseFile(token.NewFileSet(), outputPath, content, parser.SkipObjectResolution); err == nil {
-			continue
+		if previous, err := parser.ParseFile(token.NewFileSet(), outputPath, content, parser.SkipObjectResolution|parser.ParseComments); err == nil {
+			if outputPath != ownOutput || !isKessokuGenerated(previous) {
+				continue
+			}
 		}
 		// (its source may be gone: the package clause is taken from the file being processed)
 		source, err := parser.ParseFile(token.NewFileSet(), filename, nil, parser.PackageClauseOnly)
